@@ -65,8 +65,26 @@ pub fn gen_patch(rng: &mut Rng, tier: Tier) -> Vec<u8> {
     let nlines = rng.urange(0, 12);
     let mut out = Vec::new();
     for i in 0..nlines {
-        let kind = rng.below(17);
+        let mut kind = rng.below(18);
+        if kind == 17 && !rng.chance(1, 6) {
+            kind = 12; // huge lines are rare: they cost a millisecond each
+        }
         let line: Vec<u8> = match kind {
+            17 => {
+                // a line longer than 64 KiB; the marker (if any) lies beyond or
+                // straddles the 65536-byte mark
+                let n = rng.urange(65_560, 70_000);
+                let mut l = vec![b'y'; n];
+                if rng.chance(3, 4) {
+                    let at = match rng.below(3) {
+                        0 => 65_536 - rng.urange(1, 6),
+                        1 => rng.urange(65_536, n - 7),
+                        _ => n - 7,
+                    };
+                    l[at..at + 7].copy_from_slice(b"$NetBSD");
+                }
+                l
+            }
             14 => rng
                 .pick(&[
                     &b"$$NetBSD$"[..],
@@ -222,6 +240,15 @@ fn gen_script(rng: &mut Rng, data: &[u8]) -> Vec<ReadStep> {
                 }
             }
             script.push(ReadStep::Intr);
+        }
+    }
+    if rng.chance(1, 40) {
+        // an EINTR storm: hundreds of consecutive interruptions are still only
+        // interruptions
+        let at = rng.urange(0, script.len());
+        let n = rng.urange(120, 600);
+        for _ in 0..n {
+            script.insert(at, ReadStep::Intr);
         }
     }
     if rng.chance(1, 4) {
@@ -394,33 +421,39 @@ impl Property for C13 {
         Ok(())
     }
 
-    fn shrink(&self, sc: &Sc) -> Vec<Sc> {
-        let mut out = Vec::new();
+    fn shrink(&self, sc: &Sc, emit: &mut dyn FnMut(Sc) -> bool) {
+        macro_rules! push {
+            ($e:expr) => {
+                if emit($e) {
+                    return;
+                }
+            };
+        }
         if let Some(pre) = &sc.prelude {
-            out.push(Sc { prelude: None, ..sc.clone() });
+            push!(Sc { prelude: None, ..sc.clone() });
             for d in shrink_vec(&pre.data) {
                 let mut p2 = pre.clone();
                 p2.data = d;
-                out.push(Sc { prelude: Some(p2), ..sc.clone() });
+                push!(Sc { prelude: Some(p2), ..sc.clone() });
             }
             for st in shrink_vec(&pre.script) {
                 let mut p2 = pre.clone();
                 p2.script = st;
-                out.push(Sc { prelude: Some(p2), ..sc.clone() });
+                push!(Sc { prelude: Some(p2), ..sc.clone() });
             }
         }
         for s in shrink_vec(&sc.script) {
-            out.push(Sc { script: s, ..sc.clone() });
+            push!(Sc { script: s, ..sc.clone() });
         }
         for d in shrink_vec(&sc.data) {
-            out.push(Sc { data: d, ..sc.clone() });
+            push!(Sc { data: d, ..sc.clone() });
         }
         if sc.wrap.is_some() {
-            out.push(Sc { wrap: None, ..sc.clone() });
+            push!(Sc { wrap: None, ..sc.clone() });
         }
         if !sc.names.is_empty() {
             for n in shrink_vec(&sc.names) {
-                out.push(Sc { names: n, ..sc.clone() });
+                push!(Sc { names: n, ..sc.clone() });
             }
         }
         // simplify bytes
@@ -429,7 +462,7 @@ impl Property for C13 {
                 if sc.data[i] != b'a' && sc.data[i] != b'\n' {
                     let mut d = sc.data.clone();
                     d[i] = b'a';
-                    out.push(Sc { data: d, ..sc.clone() });
+                    push!(Sc { data: d, ..sc.clone() });
                 }
             }
         }
@@ -440,12 +473,11 @@ impl Property for C13 {
                     if m >= 1 {
                         let mut s = sc.script.clone();
                         s[i] = ReadStep::Give(m);
-                        out.push(Sc { script: s, ..sc.clone() });
+                        push!(Sc { script: s, ..sc.clone() });
                     }
                 }
             }
         }
-        out
     }
 
     fn sweep(&self, sc: &Sc, run: u64, tier: Tier) -> Vec<Sc> {
@@ -532,6 +564,8 @@ impl Property for C13 {
             "entry-hash_patch",
             "entry-hash_str",
             "earlier-call-on-same-thread",
+            "eintr-storm-over-100",
+            "line-longer-than-64KiB",
         ]
     }
 }
@@ -603,6 +637,12 @@ fn one_call(sc: &Sc, ctx: &mut Ctx) -> Outcome {
         }
         if let Some((1, _)) = log.events.first() {
             ctx.probe("eintr-at-first-call");
+        }
+        if log.intr > 100 {
+            ctx.probe("eintr-storm-over-100");
+        }
+        if sc.data.split(|&c| c == b'\n').any(|l| l.len() > 65_536) {
+            ctx.probe("line-longer-than-64KiB");
         }
         {
             // EINTR at the call that would have reported EOF
